@@ -351,9 +351,13 @@ def normArgs (mcls : String) (args : List (List ArgTok)) : Option (List (List Ar
   | "SliceMeta", [name, start, stop, st] => slice name (intOf start) (intOf stop) (intOf st) (intOf stop)
   | "SliceMeta", [name, start, stop, st, dt] =>
       slice name (intOf start) (intOf stop) (intOf st) (intOf dt)
-  -- OpMeta.__call__: key = (args[arity:], tuple(kwargs.items())) after bind_partial/apply_defaults;
-  -- the harness passes the bound positional parameters, kwargs are empty after binding.
+  -- OpMeta.__call__: key = hash_args_kwargs(args[arity:], kwargs) = (args, tuple(kwargs.items()))
+  -- after bind_partial/apply_defaults — the *tuple itself*, so the dict compares keys with ==
+  -- (hash(-1) == hash(-2) but -1 != -2: distinct keys).  The harness passes the bound positional
+  -- parameters; kwargs are empty after binding.
   | "OpMeta", as => some [[.lp] ++ as.flatten ++ [.rp], [.lp, .rp]]
+  -- ReshapeMeta.hash_args_kwargs: shape -> tuple(shape), then OpMeta's key
+  | "ReshapeMeta", [shape] => some [[.lp] ++ shape ++ [.rp], [.lp, .rp]]
   -- ArrayType.__getitem__: key = (dtype, shape)
   | "Array", [dtype, shape] => some [dtype, shape]
   | "Bint", [size] => some [size, [.lp, .rp]]
